@@ -95,3 +95,21 @@ pub(crate) fn assume(c: bool) {
         std::process::exit(0);
     }
 }
+
+/// An `Instant` at a whole number of seconds.  `Instant::now()` is a clock_gettime FFI call (unsupported by Kani, and
+/// nondeterministic under replay); std's unix `Instant` is `{ tv_sec: i64, tv_nsec: u32 }`.  Whole seconds only:
+/// symbolic nanoseconds make `Duration` arithmetic intractable for CBMC.
+pub(crate) fn instant(secs: u32) -> std::time::Instant {
+    #[repr(C)]
+    struct RawTs {
+        secs: i64,
+        nanos: u32,
+    }
+    const _: () = assert!(core::mem::size_of::<RawTs>() == core::mem::size_of::<std::time::Instant>());
+    let base = unsafe { core::mem::transmute::<RawTs, std::time::Instant>(RawTs { secs: 1_000_000, nanos: 0 }) };
+    let t = unsafe { core::mem::transmute::<RawTs, std::time::Instant>(RawTs { secs: 1_000_000 + secs as i64, nanos: 0 }) };
+    #[cfg(not(kani))]
+    assert!(t.duration_since(base) == core::time::Duration::from_secs(secs as u64), "Instant layout assumption broken");
+    let _ = base;
+    t
+}
